@@ -38,7 +38,10 @@ def run(tier, seed, replay=None):
     cfg0 = parse_config(BASE_CFG)
     sibs = [bg.Atom("ls", "allow"), bg.Atom("rm x", "ask"), bg.Atom("zap", "deny"), bg.Atom("git push", "ask"), bg.Atom("echo hi", "allow")]
     redirs = [("> /jail/out/f", "allow"), ("> nogrant", "ask"), ("> /jail/secret/s", "deny"), ("2>&1", "allow"), (">> other", "ask")]
-    subs = [("$(ls)", "allow"), ("$(rm x)", "ask"), ("$(zap)", "deny"), ("<(rm x)", "ask"), ("${v:-$(zap)}", "deny"), ("`rm x`", "ask")]
+    subs = [("$(ls)", "allow"), ("$(rm x)", "ask"), ("$(zap)", "deny"), ("<(rm x)", "ask"), ("${v:-$(zap)}", "deny"), ("`rm x`", "ask"),
+            # every kind of expansion the walker looks into, and the guard for "$((" closed by ") )"
+            ("$((rm x) )", "ask"), ("$((1+$(rm x)))", "ask"), ("${a[$(zap)]}", "deny"), ("$[1+$(rm x)]", "ask"), ("${v:-`zap`}", "deny"),
+            ("${v:-$(echo \\) ; rm x)}", "ask"), (">(rm x)", "ask"), ("a=($(rm x))", "ask")]
     model = lib.Model()
     xcheck = []
 
@@ -61,7 +64,7 @@ def run(tier, seed, replay=None):
         cmd = other
         for cut in (" >", " 2>", " $(", " <(", " `", ' "'):
             cmd = cmd.split(cut)[0]
-        inner = [m for m in re.findall(r"\$\(([^()]*)\)|<\(([^()]*)\)|`([^`]*)`", other)]
+        inner = [m for m in re.findall(r"\$\(([^()$]*)\)|<\(([^()]*)\)|`([^`]*)`", other)]
         inner = [x for t in inner for x in t if x]
         if rule_matches(rule, cmd) or any(rule_matches(rule, i) for i in inner):
             # judge with the broad rule's effect on OTHER commands neutralised is not expressible by
@@ -109,9 +112,17 @@ def run(tier, seed, replay=None):
         # substitutions embedded in the matched command's words
         for sb, _ in subs:
             check(rule, f"{m} {sb}", [f"echo {sb}"], "own-substitution")
-            if not sb.startswith("<("):  # no process substitution inside double quotes
+            if not sb.startswith(("<(", ">(", "a=(")):  # no process substitution / array literal inside double quotes
                 check(rule, f'{m} "x {sb} y"', [f"echo {sb}"], "own-substitution")
             check(rule, f"{m} a {sb} > nogrant", [f"echo {sb}", "echo > nogrant"], "own-both")
+    # substitutions in an assignment prefix of the matched command, and the injection-risk rule of handler CLIs
+    for rule, m in itertools.product(rules, MATCHED[:3]):
+        for sb, _ in subs[:8]:
+            check(rule, f"N={sb} {m}", [f"echo {sb}"], "prefix-substitution")
+    for rule, text, others in [("allow git push", "git push $(echo --force)", ["git status $(echo --force)"]),
+                               ("allow git push", "git push $((rm x) )", ["echo $((rm x) )"]),
+                               ("allow git *", "git push > nogrant", ["echo > nogrant"])]:
+        check(rule, text, others, "handler-cli")
     n_rand = 200 if tier == "quick" else 5000
     cmds = bg.atoms_cmd()
     rds = bg.atoms_redir()
